@@ -46,9 +46,11 @@ func (state *singleRateLimitState) TryToIncrement(
 	state.windowData = windowData
 	state.ensureWindowIsUpdated()
 
-	maxAllowedInWindows := int64(math.Ceil(float64(
-		windowData.AllowedRequestCount+state.spillover) *
-		windowData.QuotaAllocationRatio))
+	// The product is rounded to 9 decimals before rounding up, so that binary
+	// floating-point noise (100 * 0.56 = 56.00000000000001) does not add a request.
+	scaledQuota := float64(windowData.AllowedRequestCount+state.spillover) *
+		windowData.QuotaAllocationRatio
+	maxAllowedInWindows := int64(math.Ceil(math.Round(scaledQuota*1e9) / 1e9))
 	if state.counter >= maxAllowedInWindows {
 		return CurrentLimitState{state.counter, Block}
 	}
